@@ -14,12 +14,11 @@ Inductive case :=
 | CForce (om : nat) (vals : list (list Q)) (fails out : list bool) (ties : bool)
 | CLabel (eps : Q) (om cm : nat) (vals : list (list Q)) (fails out : list bool) (ties : bool)
 (* the consumers of the labelling, epsilon-constraint method: filter_multimetric_points_sampled (GP path; `kept` = the
-   row numbers of the input rows the implementation handed on) and filter_multimetric_points_sampled_spe (Parzen path);
-   `out = None`: the implementation raised ValueError *)
+   row numbers of the input rows the implementation handed on) and filter_multimetric_points_sampled_spe (Parzen path) *)
 | CWrapGP (eps : Q) (om cm : nat) (pts vals vars : list (list Q)) (fails : list bool) (lie : list Q)
-          (out : option fout) (kept : list nat) (ties : bool)
+          (o : fout) (kept : list nat) (ties : bool)
 | CWrapSPE (eps : Q) (om cm : nat) (pts vals : list (list Q)) (fails : list bool) (lie : list Q)
-           (out : option (list (list Q) * list Q)) (ties : bool).
+           (op : list (list Q)) (ov : list Q) (ties : bool).
 
 Definition blist_eqb := list_eqb Bool.eqb.
 Definition nlist_eqb := list_eqb Nat.eqb.
@@ -40,42 +39,34 @@ Definition check (c : case) : bool :=
   | CLabel eps om cm vals fails out ties =>
       let merged := map (fun p => orb (fst p) (snd p)) (combine (eps_failures eps cm vals fails) fails) in
       force_min_spec_b om vals merged out && (ties || blist_eqb (eps_labelling eps om cm vals fails) out)
-  | CWrapGP eps om cm pts vals vars fails lie out kept ties =>
-      match filter_gp_run (EpsC om cm eps) pts vals vars fails lie, out with
-      | None, None => true
-      | Some m, Some o =>
-          let n := length vals in
-          let keepm := map (fun j => existsb (Nat.eqb j) kept) (seq 0 n) in
-          (* the guaranteed minimum on the implementation's own output *)
-          Nat.leb (Nat.min min_success n) (length (o_pts o)) && fout_lengths_b o &&
-          (* the output is the selection of the input rows `kept`, in order, and that selection is an admissible repair
-             of the epsilon failures (reported failures are not merged on this path) *)
-          fout_eqb o {| o_pts := select keepm pts; o_vals := A1 (select keepm (col om vals));
-                        o_vars := A1 (select keepm (col om vars)); o_lie := Sc (nth om lie 0) |} &&
-          force_min_spec_b om vals (eps_failures eps cm vals fails) (map negb keepm) &&
-          (ties || fout_eqb m o)
-      | _, _ => false
-      end
-  | CWrapSPE eps om cm pts vals fails lie out ties =>
-      match filter_spe_run (EpsC om cm eps) pts vals fails lie, out with
-      | None, None => true
-      | Some (mp, mv), Some (op, ov) =>
-          let n := length vals in
-          let own := col om vals in
-          let l := nth om lie 0 in
-          let merged := map (fun p => orb (fst p) (snd p)) (combine (eps_failures eps cm vals fails) fails) in
-          let lost := map (fun p : Q * Q => negb (Qeq_bool (fst p) (snd p))) (combine own ov) in
-          list_eqb (list_eqb Qeq_bool) op pts && list_eqb (list_eqb Qeq_bool) mp op && Nat.eqb (length ov) n &&
-          (* the guaranteed minimum on the implementation's own output: rows that still carry their own value *)
-          Nat.leb (Nat.min min_success n) (own_count own ov) &&
-          forallb (fun p : Q * Q => Qeq_bool (fst p) (snd p) || Qeq_bool (snd p) l) (combine own ov) &&
-          forallb (fun p : bool * bool => implb (fst p) (snd p)) (combine lost merged) &&
-          (* when the lie value differs from every observed value the labelling can be read off the output *)
-          (if forallb (fun v => negb (Qeq_bool v l)) own
-           then Nat.leb (Nat.min min_success n) (not_lie_count l ov) &&
-                force_min_spec_b om vals merged (map (fun v => Qeq_bool v l) ov)
-           else true) &&
-          (ties || list_eqb Qeq_bool mv ov)
-      | _, _ => false
-      end
+  | CWrapGP eps om cm pts vals vars fails lie o kept ties =>
+      let m := filter_gp (EpsC om cm eps) pts vals vars fails lie in
+      let n := length vals in
+      let keepm := map (fun j => existsb (Nat.eqb j) kept) (seq 0 n) in
+      (* the guaranteed minimum on the implementation's own output *)
+      Nat.leb (Nat.min min_success n) (length (o_pts o)) && fout_lengths_b o &&
+      (* the output is the selection of the input rows `kept`, in order, and that selection is an admissible repair
+         of the epsilon failures (reported failures are not merged on this path) *)
+      fout_eqb o {| o_pts := select keepm pts; o_vals := A1 (select keepm (col om vals));
+                    o_vars := A1 (select keepm (col om vars)); o_lie := Sc (nth om lie 0) |} &&
+      force_min_spec_b om vals (eps_failures eps cm vals fails) (map negb keepm) &&
+      (ties || fout_eqb m o)
+  | CWrapSPE eps om cm pts vals fails lie op ov ties =>
+      let '(mp, mv) := filter_spe (EpsC om cm eps) pts vals fails lie in
+      let n := length vals in
+      let own := col om vals in
+      let l := nth om lie 0 in
+      let merged := map (fun p => orb (fst p) (snd p)) (combine (eps_failures eps cm vals fails) fails) in
+      let lost := map (fun p : Q * Q => negb (Qeq_bool (fst p) (snd p))) (combine own ov) in
+      list_eqb (list_eqb Qeq_bool) op pts && list_eqb (list_eqb Qeq_bool) mp op && Nat.eqb (length ov) n &&
+      (* the guaranteed minimum on the implementation's own output: rows that still carry their own value *)
+      Nat.leb (Nat.min min_success n) (own_count own ov) &&
+      forallb (fun p : Q * Q => Qeq_bool (fst p) (snd p) || Qeq_bool (snd p) l) (combine own ov) &&
+      forallb (fun p : bool * bool => implb (fst p) (snd p)) (combine lost merged) &&
+      (* when the lie value differs from every observed value the labelling can be read off the output *)
+      (if forallb (fun v => negb (Qeq_bool v l)) own
+       then Nat.leb (Nat.min min_success n) (not_lie_count l ov) &&
+            force_min_spec_b om vals merged (map (fun v => Qeq_bool v l) ov)
+       else true) &&
+      (ties || list_eqb Qeq_bool mv ov)
   end.
